@@ -44,18 +44,22 @@ static int cell_of(void* a) {
   if (a == (void*)&mon_self->_read_indicator2._counter) return C_CNT1;
   return C_OTHER;
 }
+static struct cellmon* mon_of(void* a) {       /* constant indices only: a symbolic array index makes the SAT instance huge */
+  int c = cell_of(a);
+  return c == C_VER ? &mon[0] : c == C_LRI ? &mon[1] : c == C_CNT0 ? &mon[2] : c == C_CNT1 ? &mon[3] : &mon[4];
+}
 static void mon_load(void* addr, uint64_t v, int o) {
-  struct cellmon* m = &mon[cell_of(addr)];
+  struct cellmon* m = mon_of(addr);
   if (m->n_load == 0) { m->first_load_clk = xv_clock; m->all_loads_sc = 1; }
   m->n_load++; m->last_load_clk = xv_clock; m->last_load_val = v; m->last_load_ord = o;
   if (o != mo_seq_cst) m->all_loads_sc = 0;
 }
 static void mon_store(void* addr, uint64_t v, int o) {
-  struct cellmon* m = &mon[cell_of(addr)];
+  struct cellmon* m = mon_of(addr);
   m->n_store++; m->store_clk = xv_clock; m->store_val = v; m->store_ord = o;
 }
 static void mon_rmw(void* addr, uint64_t oldv, uint64_t newv, int o) {
-  struct cellmon* m = &mon[cell_of(addr)];
+  struct cellmon* m = mon_of(addr);
   if (m->n_rmw == 0) { m->rmw1_clk = xv_clock; m->rmw1_old = oldv; m->rmw1_new = newv; m->rmw1_ord = o; }
   m->n_rmw++; m->rmw2_clk = xv_clock; m->rmw2_old = oldv; m->rmw2_new = newv; m->rmw2_ord = o;
 }
@@ -94,31 +98,7 @@ static void r_step(void) {
   else                           { (*cnt(s, r_vi))--; r_state = R_IDLE; r_cycles++; }
 }
 static _Bool r_on(int i) { return (r_state == R_ARRIVED || r_state == R_READING) && r_vi == i; }
-static _Bool r_reading(struct left_right* s, struct T* x) {
-  return r_state == R_READING && x == (r_inst == READ_LEFT ? &s->_left : &s->_right);
-}
-#ifdef XV_INT
-void xv_env(void) {
-  if (!env_on) return;
-  struct left_right* s = env_self;
-  if (env_kind == 1) {
-    /* any number of steps of the tracked reader: between two accesses of the writer the shared words it reads do not
-     * change, so its step function is deterministic and f^7 = f^3 (checked by h_env_closed): 0..6 steps are all there is */
-    if (nondet_bool()) r_step(); if (nondet_bool()) r_step(); if (nondet_bool()) r_step();
-    if (nondet_bool()) r_step(); if (nondet_bool()) r_step(); if (nondet_bool()) r_step();
-    /* all other readers: arrive and depart at will */
-    uint64_t o0 = nondet_u64(), o1 = nondet_u64(); XV_ASSUME(o0 < MAX_READERS && o1 < MAX_READERS);
-    s->_read_indicator1._counter = o0 + (r_on(0) ? 1 : 0);
-    s->_read_indicator2._counter = o1 + (r_on(1) ? 1 : 0);
-  } else {
-    /* writers (any number of complete or partial updates) and other readers: every shared word may change;
-     * guarantee of the writers used: the version index and the indicator stay in {0,1} */
-    s->_version_index = nondet_bool(); s->_lr_indicator = nondet_bool() ? READ_LEFT : READ_RIGHT;
-    s->_read_indicator1._counter = nondet_u64(); s->_read_indicator2._counter = nondet_u64();
-    s->_left.val = nondet_u64(); s->_right.val = nondet_u64();
-  }
-}
-#endif
+static _Bool r_reading(struct left_right* s, struct T* x);
 
 /* ---- functor stubs ---- */
 #define N_UF 4
@@ -179,6 +159,33 @@ static void lr_toggle_logged(struct left_right* self) {
 #define XV_HAVOC_WAIT XV_ENV(); XV_ENV()
 
 #include "lowered.h"
+
+static _Bool r_reading(struct left_right* s, struct T* x) {
+  return r_state == R_READING && x == (r_inst == READ_LEFT ? &s->_left : &s->_right);
+}
+#ifdef XV_INT
+void xv_env(void) {
+  if (!env_on) return;
+  struct left_right* s = env_self;
+  if (env_kind == 1) {
+    /* any number of steps of the tracked reader: between two accesses of the writer the shared words it reads do not
+     * change, so its step function is deterministic and f^7 = f^3 (checked by h_env_closed): 0..6 steps are all there is */
+    if (nondet_bool()) r_step(); if (nondet_bool()) r_step(); if (nondet_bool()) r_step();
+    if (nondet_bool()) r_step(); if (nondet_bool()) r_step(); if (nondet_bool()) r_step();
+    /* all other readers: arrive and depart at will */
+    uint64_t o0 = nondet_u64(), o1 = nondet_u64(); XV_ASSUME(o0 < MAX_READERS && o1 < MAX_READERS);
+    s->_read_indicator1._counter = o0 + (r_on(0) ? 1 : 0);
+    s->_read_indicator2._counter = o1 + (r_on(1) ? 1 : 0);
+  } else {
+    /* writers (any number of complete or partial updates) and other readers: every shared word may change;
+     * guarantee of the writers used: the version index and the indicator stay in {0,1} */
+    s->_version_index = nondet_bool(); s->_lr_indicator = nondet_bool() ? READ_LEFT : READ_RIGHT;
+    s->_read_indicator1._counter = nondet_u64(); s->_read_indicator2._counter = nondet_u64();
+    s->_left.val = nondet_u64(); s->_right.val = nondet_u64();
+  }
+}
+#endif
+
 
 /* ---- state ---- */
 static void havoc_lr(struct left_right* s) {
